@@ -289,9 +289,8 @@ def plan(tier, seed):
     cap = 6000 if tier == 'quick' else 400000
     for name in SCENARIOS:
         items.append(('B', name, bound, cap))
-    if tier == 'thorough':
-        for name in SCENARIOS3:
-            items.append(('B', name, 2, cap))
+    for name in SCENARIOS3:     # three threads: bound 1 in the quick tier, bound 2 in the thorough tier
+        items.append(('B', name, 1 if tier == 'quick' else 2, cap))
     return items
 
 
@@ -299,7 +298,7 @@ def bounds(tier, seed):
     return {'part_A': {'configurations': list(CONFIGS), 'depth': 3 if tier == 'quick' else 4, 'alphabet_sizes': {c: len(alphabet(c)) for c in CONFIGS}},
             'part_B': {'scenarios': {k: v[1] for k, v in SCENARIOS.items()}, 'preemption_bound': 2 if tier == 'quick' else 3,
                        'schedule_cap_per_scenario': '6000 schedules or 75 s' if tier == 'quick' else '400000 schedules or 3000 s',
-                       'three_thread_scenarios': list(SCENARIOS3) if tier == 'thorough' else []}}
+                       'three_thread_scenarios': {k: v[1] for k, v in SCENARIOS3.items()}, 'three_thread_preemption_bound': 1 if tier == 'quick' else 2}}
 
 
 def work(item):
